@@ -360,6 +360,9 @@ func (c *Collection) getViewRows(view *rosmarView, params *sgbucket.ViewParams) 
 	if err != nil {
 		return
 	}
+	// (Also on the error returns below: an open result set keeps its connection - the only one an in-memory
+	// bucket has, so that every later call on the bucket would block.)
+	defer rows.Close()
 	for rows.Next() {
 		var viewRow sgbucket.ViewRow
 		var jsonKey, jsonValue, jsonDoc []byte
